@@ -215,6 +215,15 @@ def directed_histories():
     out.append(H(False, SRV(0), O("T", "m3", "right"), O("X", "m3", "right"), O("L", "m3", "none")))
     out.append(H(True, O("T", "m3", "right"), SRV(0)))
     out.append(H(False, SRV(0), SM("m3", "revoked"), O("T", "m3", "right"), O("half", "m3", "none")))
+    # handleLocalBridgeWait: a record says "tunnel on THIS node" while no bridge is here; the request waits; the record goes away;
+    # a bridge appears under the same client-chosen id — of ANOTHER mapping (must be dropped) / of its own mapping (must attach)
+    for who, m, other_open, own_open in (("X", "m2", O("L", "m1", "right"), O("S", "m2", "right")),
+                                         ("T", "m1", O("S", "m2", "none"), O("L", "m1", "none")),
+                                         ("S", "m2", O("L", "m1", "right"), O("S", "m2", "right"))):
+        out.append(H(True, RT(0, "self", m), O(who, m, "right"), RT(0, "none"), other_open))
+        out.append(H(True, RT(0, "self", m), O(who, m, "right"), RT(0, "none"), own_open))
+        out.append(H(True, RT(0, "self", m), O(who, m, "right"), RT(0, "none"), other_open, O(who, m, "right")))
+    out.append(H(True, RT(0, "self", "m1"), O("X", "m2", "right"), O("none", "m1", "none")))
     # boundary secrets in every family: after a legitimate open / on a live tunnel / parked early / on a routing record
     for k in ["wrong"] + BOUNDARY:
         out.append(H(False, O("L", "m1", "right"), O("T", "m1", k), O("L", "m1", k, 1), O("T", "m1", "right")))
@@ -397,7 +406,7 @@ def random_history(rng, routing):
         elif k < 0.82:
             steps.append(SM(rng.choice(["m1", "m1", "m2", "m3"]), rng.choice(["active", "revoked", "expired", "inactive", "missing", "revoked", "exp25s", "exp10s", "exp2s", "exp1ms", "soon60s"])))
         elif k < 0.90 and routing:
-            steps.append(RT(rng.choice([0, 0, 1]), rng.choice(["other", "other", "none"]), rng.choice(["m1", "m2"])))
+            steps.append(RT(rng.choice([0, 0, 1]), rng.choice(["other", "other", "none", "self"]), rng.choice(["m1", "m2"])))
         elif k < 0.94:
             steps.append(CL(rng.choice([0, 1])))
         elif k < 0.97:
@@ -438,7 +447,7 @@ def hist_value(flags_vf_si, h, o):
         elif st["op"] == "setm":
             steps.append([1, HMID.index(st["m"]), HSTATES.index(st["state"])])
         elif st["op"] == "route":
-            steps.append([2, st["tun"], 0 if st["node"] == "none" else 1, HMID.index(st["m"])])
+            steps.append([2, st["tun"], {"none": 0, "other": 1, "self": 2}[st["node"]], HMID.index(st["m"])])
         elif st["op"] == "close":
             steps.append([3, st["tun"]])
         elif st["op"] == "srv":
